@@ -468,6 +468,18 @@ V("c02-cached-parent-sets", "C02", "fire", AN, "        self.A = deepcopy(A)\n",
 V("c02-silent-cached-parent-lists", "C02", "silent", AN, "        self.A = deepcopy(A)\n", "        self.A = deepcopy(A)\n        self.parents = [utils.pa(i, self.A) for i in range(self.p)]\n",
   more=[(AN, "                assignment = np.transpose(self.assignments[i](X[:, self.A[:, i] != 0]))\n", "                parents = sorted(self.parents[i])\n                assignment = np.transpose(self.assignments[i](X[:, parents]))\n")],
   what="cached parent sets, sorted at the use: the same columns in increasing index")
+_OD_FLAG = [(UT, "def only_directed(P):", "def only_directed(P, weights=True):"),
+            (UT, "    mask = np.logical_and(P != 0, P.T == 0)\n    G = np.zeros_like(P)\n", "    mask = np.logical_and(P != 0, P.T == 0)\n    if not weights:\n        return mask.astype(int)\n    G = np.zeros_like(P)\n")]
+_VS_OLD = "    dir_A = only_directed(A)\n    # Search for colliders in the graph with only directed edges\n    colliders = np.where((dir_A != 0).sum(axis=0) > 1)[0]\n"
+_VS_FLAG = "    dir_A = only_directed(A, weights=False)\n    colliders = np.where(dir_A.sum(axis=0) > 1)[0]\n"
+for _p, _e in (("C07", "silent"), ("C10", "silent"), ("C16", "undecided")):
+    V("r14-%s-flag-binary-only-directed" % _p.lower(), _p, _e, UT, _VS_OLD, _VS_FLAG, more=_OD_FLAG,
+      what="only_directed(A, weights=False) is the 0/1 mask: column sums of it count directed parents exactly (twin of seed C16-r14-1; a literal keyword selects the helper's branch)")
+V("r14-c16-flag-weighted-only-directed", "C16", "fire", UT, _VS_OLD, _VS_FLAG.replace("weights=False", "weights=True"), more=_OD_FLAG, rule="PAT",
+  what="the same call with weights=True: column sums of signed weights decide the collider pre-filter")
+V("r14-c16-moral-matmul", "C16", "fire", UT, "    for (i, _, j) in vstructures(A):\n        moral[i, j] = 1\n        moral[j, i] = 1\n",
+  "    D = only_directed(A)\n    common = D @ D.T\n    moral[common != 0] = 1\n    moral[np.diag_indices(len(A))] = 0\n", rule="PAT",
+  what="parents married through D @ D.T on signed weights: products over several common children cancel (seed C16-r14-1)")
 V("c10-pattern-chain-test", "C10", "fire", UT, "    return (A == chain_graph(p)).all()", "    return ((A != 0) == (chain_graph(p) != 0)).all()", rule="PAT", what="pattern-based chain test lets weighted chains into the value-comparing shortcut")
 
 # ------------------------------------------------------------------------------- more seed-inspired variants
